@@ -273,7 +273,8 @@ def finish(prop, tier, seed, results, extra, t0, level_text=None):
     # ---- output
     seen = set()
     for unit, clause, sig, f in known_hits:
-        key = (unit, clause, sig)
+        wild = any(finding_matches(e, prop, unit, clause, sig) and e.get("witness") == "*" for e in known)
+        key = (unit, clause, "*" if wild else sig)
         if key in seen:
             continue
         seen.add(key)
